@@ -44,6 +44,7 @@ func (X *Exec) execInstr(fr *Frame, ins ssa.Instruction, st *State) {
 		if v.Clo != nil && v.T != nil {
 			st.Clos[v.T] = v.Clo
 		}
+		X.applyStoreHooks(fr, st, i, addr, v)
 	case *ssa.UnOp:
 		X.execUnOp(fr, i, st)
 	case *ssa.BinOp:
@@ -362,6 +363,9 @@ func srcName(v ssa.Value) string {
 			}
 			if g, ok := x.X.(*ssa.Global); ok {
 				return g.Name()
+			}
+			if u, ok := x.X.(*ssa.UnOp); ok && u.Op == token.MUL {
+				return "*" + srcName(u)
 			}
 		}
 	case *ssa.Const:
@@ -969,4 +973,41 @@ func (X *Exec) noteAlloc(st *State, n *Term, el types.Type, pos token.Pos) {
 	ts := X.E.TS
 	cur := X.heap(st, "GM|maxalloc", SInt)
 	X.setHeap(st, "GM|maxalloc", SInt, ts.Ite(ts.Lt(cur, n), n, cur))
+}
+
+
+// applyStoreHooks: `onstore <field>` clauses of the frame's contract: protocol clauses (requires / update) evaluated
+// when the function assigns to that field of an object (`recv` = the object, `value` = what is stored).
+func (X *Exec) applyStoreHooks(fr *Frame, st *State, i *ssa.Store, addr *Addr, v *Val) {
+	fs := X.specOf(fr)
+	if fs == nil || len(fs.Callsites) == 0 || addr.Kind != AddrObj || len(addr.Path) != 1 || addr.Path[0].Field < 0 {
+		return
+	}
+	sT := structOf(addr.ObjT)
+	if sT == nil {
+		return
+	}
+	pat := "store:" + sT.Field(addr.Path[0].Field).Name()
+	for _, cs := range fs.Callsites {
+		if cs.Pattern != pat {
+			continue
+		}
+		cs.Hits++
+		vars := map[string]*Val{"recv": {T: addr.Ref, GT: types.NewPointer(addr.ObjT)}}
+		if v.T != nil {
+			vars["value"] = v
+		}
+		for _, c := range cs.Requires {
+			t := X.evalClause(fr, st, c, vars)
+			X.oblige(st, "callsite", c.Label, fmt.Sprintf("at assignment to .%s: %s", pat[6:], c.Src), i.Pos(), t)
+		}
+		for _, u := range cs.Updates {
+			srt, ok := X.ghostTypes[u.Name]
+			if !ok {
+				panic("update of undeclared ghost " + u.Name)
+			}
+			sc := X.clauseCtx(fr, st, vars, "update "+u.Name)
+			X.setHeap(st, "GH|"+u.Name, srt, sc.evalGhost(u.Expr, srt))
+		}
+	}
 }
